@@ -74,6 +74,8 @@ impl ArrivalBound for ApproximatedPoisson {
             let mut cumulative_prob = 0.0;
             let mut njobs = 0;
             loop {
+                #[cfg(feature = "verif-hooks")]
+                crate::verif_hooks::tick("arrival::ApproximatedPoisson::number_arrivals");
                 cumulative_prob += self.poisson.arrival_probability(delta, njobs);
                 if cumulative_prob + self.epsilon >= 1.0 {
                     break;
